@@ -186,8 +186,8 @@ func newPMMX(c *Ctx, rule string) *pmmx {
 		}
 		return ""
 	}}
-	x.S = polyAtom("cdiv12(region.PhysAddress)")
-	x.E1 = polyAtom("fdiv12(region.Length + region.PhysAddress)")
+	x.S = pCdiv(12, polyAtom("region.PhysAddress"))
+	x.E1 = pFdiv(12, polyAtom("region.Length").add(polyAtom("region.PhysAddress"), 1))
 	x.N = x.E1.add(x.S, -1)
 	// roles
 	x.resolveRoles()
@@ -478,7 +478,7 @@ func (x *pmmx) ruleRounding() {
 				rp = rp.add(polyConst(k), 1)
 			}
 			allowed := []Poly{x.S, E, x.N, polyAtom("region.Length"), polyAtom("region.Type"),
-				polyAtom("fdiv3(up6(" + x.N.String() + "))"), polyAtom("fdiv3(fdiv3(up6(" + x.N.String() + ")))"), polyAtom("cdiv6(" + x.N.String() + ")")}
+				pFdiv(3, pUp(6, x.N)), pCdiv(6, x.N)}
 			for _, a := range allowed {
 				if rp.equal(a) {
 					return
@@ -518,11 +518,11 @@ func (x *pmmx) ruleRounding() {
 	zk := &Polyizer{}
 	for _, fs := range m.storesToField(x.kStartF) {
 		p := zk.Of(fs.Store.Val)
-		c.check(p.String() == "fdiv12(kernelStart)", "C01.R3", "kernel-start "+m.fnName(fs.Fn), "kernelStartFrame = fdiv12(kernelStart) (rounded down)", "kernel start frame is "+p.String()+", expected fdiv12(kernelStart)", m.pos(fs.Store.Pos()))
+		c.check(p.equal(pFdiv(12, polyAtom("kernelStart"))), "C01.R3", "kernel-start "+m.fnName(fs.Fn), "kernelStartFrame = fdiv12(kernelStart) (rounded down)", "kernel start frame is "+p.String()+", expected fdiv12(kernelStart)", m.pos(fs.Store.Pos()))
 	}
 	for _, fs := range m.storesToField(x.kEndF) {
 		p := zk.Of(fs.Store.Val)
-		c.check(p.String() == "-1 + cdiv12(kernelEnd)", "C01.R3", "kernel-end "+m.fnName(fs.Fn), "kernelEndFrame = cdiv12(kernelEnd) - 1 (rounded up)", "kernel end frame is "+p.String()+", expected cdiv12(kernelEnd) - 1: the last partially used kernel page is not protected", m.pos(fs.Store.Pos()))
+		c.check(p.equal(pCdiv(12, polyAtom("kernelEnd")).add(polyConst(1), -1)), "C01.R3", "kernel-end "+m.fnName(fs.Fn), "kernelEndFrame = cdiv12(kernelEnd) - 1 (rounded up)", "kernel end frame is "+p.String()+", expected cdiv12(kernelEnd) - 1: the last partially used kernel page is not protected", m.pos(fs.Store.Pos()))
 	}
 }
 
@@ -624,7 +624,7 @@ func (x *pmmx) ruleAllocMarks() {
 			continue
 		}
 		rel := polyAtom("frame").add(polyAtom("pool.startFrame"), -1)
-		wantIdx := polyAtom("fdiv6(" + rel.String() + ")")
+		wantIdx := pFdiv(6, rel)
 		wantShift := polyConst(63).add(rel, -1).add(wantIdx.mul(polyConst(64)), 1)
 		for _, bs := range x.bitStores(gf) {
 			nb++
@@ -1367,8 +1367,8 @@ func runC03(c *Ctx) {
 	c.floor("C03.R1", 5)
 	vis := m.closureArgOf(x.setup, x.visit, 0)
 	nAtom := x.N.String()
-	bytesForm := polyAtom("fdiv3(up6(" + nAtom + "))")
-	wordsForms := []Poly{polyAtom("fdiv3(fdiv3(up6(" + nAtom + ")))"), polyAtom("cdiv6(" + nAtom + ")"), polyAtom("fdiv6(up6(" + nAtom + "))")}
+	bytesForm := pFdiv(3, pUp(6, x.N))
+	wordsForms := []Poly{pCdiv(6, x.N)}
 	report := func(key string, got Poly, want []Poly, what, why string, pos string) {
 		for _, w := range want {
 			if got.equal(w) {
@@ -1383,7 +1383,7 @@ func runC03(c *Ctx) {
 		c.fail("C03.R1", key, what+" is "+got.String()+", expected "+strings.Join(ws, " or ")+" with n = endFrame-startFrame+1 = "+nAtom+": "+why, pos)
 	}
 	seen := map[string]bool{}
-	for _, v := range vis {
+	for vi, v := range vis {
 		g := newIG(m, v, nil)
 		for n, in := range g.Ins {
 			st, ok := in.(*ssa.Store)
@@ -1413,12 +1413,21 @@ func runC03(c *Ctx) {
 					okc = okc || val.equal(w)
 				}
 				c.check(okc, "C03.R1", "bitmap-cap "+m.fnName(v), "Cap = Len", "bitmap capacity is not its length: "+val.String(), g.posOf(n))
-			case isCell && cell.Comment == "requiredBitmapBytes":
-				seen["required"] = true
-				report("reserved-bytes "+m.fnName(v), val.add(polyAtom("$requiredBitmapBytes"), -1), []Poly{bytesForm}, "bytes reserved per pool (pass 1)", "the reservation made in pass 1 is smaller than the bitmaps laid out in pass 2", g.posOf(n))
-			case isCell && cell.Comment == "bitmapStartAddr":
-				seen["advance"] = true
-				report("bitmap-advance "+m.fnName(v), val.add(polyAtom("$bitmapStartAddr"), -1), []Poly{bytesForm}, "bitmap address advance (pass 2)", "consecutive pool bitmaps overlap or leave the reservation", g.posOf(n))
+			case isCell && cell.Comment != "":
+				// a byte accumulator of the visitor (total += bitmap bytes): the
+				// reservation of pass 1, the address advance of pass 2. Counters
+				// that step by a constant are not sizes.
+				delta := val.add(polyAtom("$"+cell.Comment), -1)
+				if _, isConst := delta.isConst(); isConst || len(val) == len(delta) && val.equal(delta) {
+					continue
+				}
+				if vi == 0 {
+					seen["required"] = true
+					report("reserved-bytes "+m.fnName(v), delta, []Poly{bytesForm}, "bytes reserved per pool (pass 1)", "the reservation made in pass 1 is smaller than the bitmaps laid out in pass 2", g.posOf(n))
+				} else {
+					seen["advance"] = true
+					report("bitmap-advance "+m.fnName(v), delta, []Poly{bytesForm}, "bitmap address advance (pass 2)", "consecutive pool bitmaps overlap or leave the reservation", g.posOf(n))
+				}
 			}
 		}
 	}
